@@ -8,6 +8,7 @@ import (
 	"go/parser"
 	"go/scanner"
 	"go/token"
+	"go/types"
 	"os"
 	"path/filepath"
 	"sort"
@@ -15,6 +16,7 @@ import (
 	"strings"
 
 	"verif/tools/internal/fo"
+	"verif/tools/internal/ir"
 )
 
 // C04 — checked-in generated Go is a fixed point of the self-hosted compiler.
@@ -32,11 +34,12 @@ type foPair struct {
 // ---------- expected declarations from a .fo file (tokens only) ----------
 
 type expDecl struct {
-	kind string // package | import | func | var | struct | interface | method
-	name string
-	n    int      // func: number of non-unit parameters
-	flds []string // struct: field names in order
-	line int
+	kind  string // package | import | func | var | struct | interface | method
+	name  string
+	n     int      // func: number of non-unit parameters
+	flds  []string // struct: field names in order
+	line  int
+	pcase bool // struct: a union case with a payload (its Stringer calls frt.Sprintf1)
 }
 
 func (d expDecl) String() string {
@@ -208,6 +211,7 @@ func typeDecls(ts []fo.Tok) ([]expDecl, string) {
 			d := expDecl{kind: "struct", name: name + "_" + c.name, line: g[0].Line}
 			if c.payload {
 				d.flds = []string{"Value"}
+				d.pcase = true
 			}
 			res = append(res, d)
 			if !c.payload && ntp == 0 {
@@ -592,6 +596,29 @@ func checkFoPair(c *Ctx, p foPair) {
 			exp = append(exp, ds...)
 		}
 	}
+	// the compiler imports frt itself, right after the package clause, when a union case with a payload is
+	// defined and the source does not import it (addFrtImportIfNecessary; closed forms pinned under C04.imp)
+	{
+		const frtPath = "github.com/karino2/folang/pkg/frt"
+		needs, has := false, false
+		for _, d := range exp {
+			if d.kind == "struct" && d.pcase {
+				needs = true
+			}
+			if d.kind == "import" && d.name == frtPath {
+				has = true
+			}
+		}
+		if needs && !has {
+			imp := expDecl{kind: "import", name: frtPath}
+			if len(exp) > 0 && exp[0].kind == "package" {
+				imp.line = exp[0].line
+				exp = append([]expDecl{exp[0], imp}, exp[1:]...)
+			} else {
+				exp = append([]expDecl{imp}, exp...)
+			}
+		}
+	}
 	have := goDecls(gf)
 	// compare the ordered sequences
 	es := make([]string, len(exp))
@@ -691,6 +718,7 @@ func checkC04(c *Ctx) {
 	r.Rule("C04.c", "per-definition literal sequences and construct counts agree", 400)
 	r.Rule("C04.d", "generated files are gofmt-idempotent", 30)
 	r.Rule("C04.e", "samples/README.md and pkg/pkg_all.foi are what their recipes produce from the checked-in files", 2)
+	r.Rule("C04.imp", "the compiler's own import insertion has the closed form the expected declaration tables mirror", 7)
 	r.Rule("C04.lib", "the file wrappers the reproduction relies on are verbatim", 2)
 	root := c.Repo.Root
 	var pairs []foPair
@@ -842,4 +870,28 @@ func checkC04(c *Ctx) {
 		}
 	}
 	checkTermSpecsOpt(c, "C04.lib", "pkg/sys", sp, false)
+	// the one declaration the compiler adds by itself (mirrored in the expected tables of (b))
+	if f := c.LoadFC("fc"); f != nil {
+		c.checkPins(f, "C04.imp", c04ImportPins)
+		if v, ok := f.M.Main().Types.Scope().Lookup("frtImportPath").(*types.Var); ok {
+			init := globalInit(f.Prog, v)
+			lit, isLit := init.(*ir.Lit)
+			w := globalWrites(f.Prog, v)
+			r.Check(isLit && lit.Val == "github.com/karino2/folang/pkg/frt" && len(w) == 0, "C04.imp", "frtImportPath", "value", "fc",
+				"frtImportPath is the constant import path of frt and is never written", "frtImportPath is not the constant github.com/karino2/folang/pkg/frt (or is written somewhere)")
+		} else {
+			r.Undecided("C04.imp", "frtImportPath", "definition", "fc", "anchor variable not found")
+		}
+	}
+}
+
+var c04ImportPins = []pin{
+	{"RootStmtsToGo", "nf", `strings.AppendTail("\n", strings.Concat("\n\n", slice.Map(RootStmtToGo, addFrtImportIfNecessary(p0))))`, "the statement list is emitted in order after the import adjustment"},
+	{"addFrtImportIfNecessary", "nf", `if((slice.Forany(rsNeedsFrt, p0) && not(slice.Forany(rsIsFrtImport, p0))), if((slice.IsNotEmpty(p0) && rsIsPackage(slice.Head(p0))), slice.PushHead(slice.Head(p0), slice.PushHead(New_RootStmt_RSImport(var:frtImportPath), slice.Tail(p0))), slice.PushHead(New_RootStmt_RSImport(var:frtImportPath), p0)), p0)`,
+		"frt is imported right after the package clause exactly when it is needed and not imported by the source"},
+	{"rsNeedsFrt", "nf", `match(p0; RootStmt_RSDefStmt -> dsNeedsFrt(payload(RootStmt_RSDefStmt)); RootStmt_RSMultipleDefs -> slice.Forany(dsNeedsFrt, payload(RootStmt_RSMultipleDefs).Defs); _ -> false)`, "needed by type definitions only"},
+	{"dsNeedsFrt", "nf", `match(p0; DefStmt_DUnionDef -> slice.Forany(ntpHasValue, udCases(payload(DefStmt_DUnionDef))); DefStmt_DRecordDef -> false; _ -> never)`, "needed by a union with a payload case (its Stringer calls frt.Sprintf1)"},
+	{"ntpHasValue", "nf", `(p0.Ftype ne var:New_FType_FUnit)`, "a case has a payload when its type is not unit"},
+	{"rsIsFrtImport", "nf", `match(p0; RootStmt_RSImport -> (payload(RootStmt_RSImport) eq var:frtImportPath); _ -> false)`, "the source already imports frt"},
+	{"rsIsPackage", "nf", `match(p0; RootStmt_RSPackage -> true; _ -> false)`, "package clause"},
 }
